@@ -47,7 +47,7 @@ type Plan struct {
 var suites = []oprf.Suite{oprf.SuiteRistretto255, oprf.SuiteP256, oprf.SuiteP384, oprf.SuiteP521}
 var zkGroups = []group.Group{group.Ristretto255, group.P256, group.P384, group.P521}
 
-var oprfFaults = []string{"", "", "eval-replace", "eval-flip", "eval-swap", "proof-c", "proof-s", "pk-other", "info-alter", "blinded-alter", "eval-identity", "server-forge-identity", "server-forge-replace", "server-reproof-honest"}
+var oprfFaults = []string{"", "", "eval-replace", "eval-flip", "eval-swap", "proof-c", "proof-s", "pk-other", "info-alter", "blinded-alter", "eval-identity", "server-forge-identity", "server-forge-replace", "server-reproof-honest", "proof-missing"}
 var dleqFaults = []string{"", "proof-c", "proof-s", "proof-flip", "stmt-a", "stmt-ka", "stmt-b", "stmt-kb", "dst", "batch-swap", "batch-alter", "zero-c", "zero-s", "false-statement", "identity-statement", "prove-b-identity", "prove-kb-other", "prove-kb-identity"}
 var dlFaults = []string{"", "V-alter", "R-alter", "kG-alter", "G-alter", "userid", "otherinfo", "V-identity-R-zero", "false-statement"}
 var qnFaults = []string{"", "forge-hx-zero", "forge-gx-zero", "forge-h-zero", "Z-alter", "C-alter", "g-alter", "gx-alter", "h-alter", "hx-alter", "N-alter", "degenerate-secparam0", "zero-Z", "false-statement"}
@@ -389,6 +389,10 @@ func execOPRF(p *Plan, run *core.Run) {
 		}
 	case "proof-c", "proof-s":
 		faulted = cev.Proof != nil
+	case "proof-missing":
+		// the server answers as a base-mode server: evaluated elements, no proof
+		faulted = cev.Proof != nil
+		cev.Proof = nil
 	case "pk-other":
 		faulted = mode != oprf.BaseMode
 	case "blinded-alter":
